@@ -213,6 +213,29 @@ class FrontEnd:
         u.facts = out
         return u
 
+    def constants(self, names, header="mpi.h"):
+        """values of enumerators / macros of a system header, obtained from clang's constant evaluator on a scratch unit"""
+        import json
+        src = os.path.join(self.scratch, "consts_%d.c" % abs(hash(tuple(names))))
+        with open(src, "w") as f:
+            f.write("#include <%s>\n" % header)
+            for k, n in enumerate(names):
+                f.write("long pncx_const_%d = (long)(%s);\n" % (k, n))
+        out = src + ".json"
+        r = subprocess.run([PNCX, "-o", out, src, "--"] + self.mpi + ["-std=gnu11", "-w"], capture_output=True, text=True, timeout=120)
+        if r.returncode != 0 or not os.path.exists(out):
+            raise AnalysisBroken("constant evaluation failed: %s" % (r.stderr or r.stdout)[-400:])
+        d = json.load(open(out))
+        vals = {}
+        for g in d.get("globals", []):
+            if g["n"].startswith("pncx_const_") and "init" in g:
+                init = g["init"]
+                v = init.get("cv")
+                if v is None and isinstance(init.get("e"), dict):
+                    v = init["e"].get("cv")
+                vals[names[int(g["n"].split("_")[-1])]] = v
+        return vals
+
     def extract(self, names=None, groups=None):
         """run the extractor on the selected units; returns {name: Unit}."""
         if not os.path.exists(PNCX):
